@@ -34,6 +34,11 @@ type Op struct {
 	Hi  *dbh.Val `json:"hi,omitempty"`
 	LoT *int     `json:"lot,omitempty"` // range: lower / upper bound is the key of the T-th stored entry (a bound that is itself stored)
 	HiT *int     `json:"hit,omitempty"`
+	// range with LoT: the lower bound is the smallest value greater than that stored key (a bound just behind a stored entry)
+	LoSucc bool `json:"losucc,omitempty"`
+	// drain: of the entries with rank [T, T+N) in key order delete all but every Stride-th (nodes are left with very few entries)
+	N      int `json:"n,omitempty"`
+	Stride int `json:"stride,omitempty"`
 	// upd: new key / new rid
 	NKey *dbh.Val `json:"nkey,omitempty"`
 	NRID [2]int64 `json:"nrid,omitempty"`
@@ -259,6 +264,49 @@ func run(c *Case, st *stats) *vf.Failure {
 			if f := check(step, "after update (new key)", nk); f != nil {
 				return f
 			}
+		case "drain":
+			if len(model) == 0 {
+				continue
+			}
+			sorted := append([]entry{}, model...)
+			sort.SliceStable(sorted, func(i, j int) bool { return dbh.Compare3(sorted[i].key, sorted[j].key) < 0 })
+			from := op.T % len(sorted)
+			stride := op.Stride
+			if stride < 2 {
+				stride = 2
+			}
+			for r := from; r < from+op.N && r < len(sorted); r++ {
+				if (r-from)%stride == 0 {
+					continue
+				}
+				m := sorted[r]
+				e.idx.DeleteEntry(e.tup(m.key), m.rid, nil)
+				for i := range model {
+					if model[i].rid == m.rid {
+						model = append(model[:i], model[i+1:]...)
+						break
+					}
+				}
+				delete(ridUsed, m.rid)
+				keyUsed[normKey(m.key)]--
+			}
+			st.classes["drained-nodes"] = true
+		case "insnear": // a key just behind a stored one
+			if len(model) == 0 {
+				continue
+			}
+			k := succKey(c, model[op.T%len(model)].key)
+			rid := ridOf(op.RID)
+			if ridUsed[rid] || (c.Kind == dbh.IdxUniqSkip && keyUsed[normKey(k)] > 0) || (c.Kind == dbh.IdxHash && len(model) >= 1500) {
+				continue
+			}
+			e.idx.InsertEntry(e.tup(k), rid, nil)
+			model = append(model, entry{k, rid})
+			ridUsed[rid] = true
+			keyUsed[normKey(k)]++
+			if f := check(step, "after insert just behind a stored key", k); f != nil {
+				return f
+			}
 		case "get":
 			key := *op.Key
 			if len(model) > 0 && op.T%3 != 0 {
@@ -274,6 +322,9 @@ func run(c *Case, st *stats) *vf.Failure {
 			if len(model) > 0 {
 				if op.LoT != nil {
 					k := model[*op.LoT%len(model)].key
+					if op.LoSucc {
+						k = succKey(c, k)
+					}
 					op.Lo = &k
 				}
 				if op.HiT != nil {
@@ -357,6 +408,23 @@ func run(c *Case, st *stats) *vf.Failure {
 					return vf.Failf("range-mismatch:"+c.Kind, "final sweep: range scan [%s,%s] (both bounds are stored keys) with %d entries stored: %s", lo, hi, len(model), d)
 				}
 				st.sweeps++
+				// the same scan starting just behind the stored key
+				lo2 := succKey(c, lo)
+				if dbh.Compare3(lo2, lo) > 0 && dbh.Compare3(lo2, hi) <= 0 {
+					var want []entry
+					for _, m := range sorted[i : j+1] {
+						if dbh.Compare3(m.key, lo2) >= 0 {
+							want = append(want, m)
+						}
+					}
+					got, f := scanRange(e, c, &lo2, &hi)
+					if f != nil {
+						return f
+					}
+					if d := diffEntries(got, want); d != "" {
+						return vf.Failf("range-mismatch:"+c.Kind, "final sweep: range scan [%s,%s] (lower bound just behind the stored key %s) with %d entries stored: %s", lo2, hi, lo, len(model), d)
+					}
+				}
 			}
 		}
 	}
@@ -422,6 +490,35 @@ func diffEntries(got, want []entry) string {
 // ---- generator -------------------------------------------------------------------------------------------
 
 var sess *vf.Session
+
+// succKey returns a key slightly greater than k (k itself where no such key is in the domain of the kind).
+func succKey(c *Case, k dbh.Val) dbh.Val {
+	if k.Null {
+		return k
+	}
+	switch c.KeyT {
+	case "i":
+		if k.I >= math.MaxInt32-1 { // MaxInt32 is a sentinel of the unique skip list (listed finding)
+			return k
+		}
+		return dbh.IntV(k.I + 1)
+	case "f":
+		n := math.Nextafter32(k.F, float32(math.Inf(1)))
+		if math.IsInf(float64(n), 0) || n >= math.MaxFloat32 || n != n {
+			return k
+		}
+		return dbh.FloatV(n)
+	default:
+		max := 120
+		if c.Kind == dbh.IdxBtree {
+			max = 24
+		}
+		if len(k.S)+1 > max {
+			return k
+		}
+		return dbh.StrV(k.S + "\x01")
+	}
+}
 
 func genKey(t *rapid.T, c *Case, dense bool, l string) dbh.Val {
 	noExtreme := c.Kind == dbh.IdxUniqSkip && sess != nil && sess.ExclusionOn("uniq-skiplist-sentinel-keys")
@@ -545,6 +642,20 @@ func genCase(t *rapid.T, long bool) *Case {
 				c.Ops = append(c.Ops, Op{K: "del", T: 0})
 			}
 		}
+		// thin out a key range so that nodes keep one or two entries, then work right behind the survivors
+		if c.Kind != dbh.IdxHash && rapid.Bool().Draw(t, "drain") {
+			c.Ops = append(c.Ops, Op{K: "drain", T: rapid.IntRange(0, bulk).Draw(t, "drainfrom"), N: rapid.IntRange(60, 500).Draw(t, "drainn"),
+				Stride: rapid.SampledFrom([]int{15, 30, 60, 120}).Draw(t, "drainstride")})
+			nn := rapid.IntRange(5, 30).Draw(t, "nnear")
+			for i := 0; i < nn; i++ {
+				tt := rapid.IntRange(0, 5000).Draw(t, "neart")
+				if rapid.Bool().Draw(t, "nearins") {
+					c.Ops = append(c.Ops, Op{K: "insnear", T: tt, RID: [2]int64{int64(7000 + i), int64(i)}})
+				} else {
+					c.Ops = append(c.Ops, Op{K: "range", LoT: &tt, LoSucc: true})
+				}
+			}
+		}
 	}
 	for i := 0; i < n; i++ {
 		op := Op{K: rapid.SampledFrom([]string{"ins", "ins", "ins", "del", "upd", "get", "range", "range"}).Draw(t, "op")}
@@ -603,7 +714,7 @@ func genCase(t *rapid.T, long bool) *Case {
 	return c
 }
 
-const rule = "Case (sequential) = index kind (skip list, unique skip list, B-tree, hash) x key type (int, float, varchar) x pool size x operation sequence through the index.Index interface of a catalog-created table: InsertEntry / DeleteEntry / UpdateEntry (new key and/or new row id) / ScanKey / GetRangeScanIterator (full, open-low, open-high, closed; bounds drawn from the key domain or taken from stored entries; after a long sequence every stored key is used once as inclusive lower bound); short sequences (5-60 ops) and long ones (200-900 bulk inserts, optional deletion of half of them, then mixed ops) so that nodes split and empty; keys from dense domains (duplicates on non-unique kinds), adjacent values, type extremes, -0.0/+0.0, strings with shared prefixes, 0x01/0xff bytes, up to the kind's length limit; row ids with large page ids and slots. Oracle: multimap model (ScanKey = exact row id set; range scans = exactly the entries in bounds, keys non-decreasing, each entry once). Concurrent phase: see its own rule. Non-trivial (sequential) = a range scan was checked after the container held more than 120 entries (nodes split), or the sequence is a long one."
+const rule = "Case (sequential) = index kind (skip list, unique skip list, B-tree, hash) x key type (int, float, varchar) x pool size x operation sequence through the index.Index interface of a catalog-created table: InsertEntry / DeleteEntry / UpdateEntry (new key and/or new row id) / ScanKey / GetRangeScanIterator (full, open-low, open-high, closed; bounds drawn from the key domain or taken from stored entries; after a long sequence every stored key is used once as inclusive lower bound); short sequences (5-60 ops) and long ones (200-900 bulk inserts, optional deletion of half of them, optional thinning of a key range to every 15th-120th entry followed by inserts and scans right behind the survivors, then mixed ops) so that nodes split and empty; keys from dense domains (duplicates on non-unique kinds), adjacent values, type extremes, -0.0/+0.0, strings with shared prefixes, 0x01/0xff bytes, up to the kind's length limit; row ids with large page ids and slots. Oracle: multimap model (ScanKey = exact row id set; range scans = exactly the entries in bounds, keys non-decreasing, each entry once). Concurrent phase: see its own rule. Non-trivial (sequential) = a range scan was checked after the container held more than 120 entries (nodes split), or the sequence is a long one."
 
 var assumptions = []string{
 	"entries are distinct by row id; no duplicate keys into the unique kind; delete/update only existing entries; hash: no update, no range scan, at most 1500 entries (fixed-size table)",
